@@ -38,6 +38,18 @@ func genC20VLine(t *rapid.T) C20VLine {
 			s.Idx = rapid.IntRange(0, 3).Draw(t, "idx")
 		case "inactive":
 			s.Ms = rapid.SampledFrom([]int{0, 0, 0, l.IdleMs - 1, l.IdleMs + 300, 2*l.IdleMs + 200}).Draw(t, "linger")
+		case "write":
+			// what happens to the write behind the idle handler: nothing special, it takes Ms of (virtual) time in a
+			// handler nearer the head (a slow transport), or it is refused there (full queue, failing encoder)
+			switch rapid.IntRange(0, 5).Draw(t, "wkind") {
+			case 0:
+				s.Ms = rapid.SampledFrom([]int{1, 300, l.IdleMs - 1, l.IdleMs + 1}).Draw(t, "wslow")
+			case 1:
+				s.Idx = 1 // refused
+			case 2:
+				s.Idx = 1
+				s.Ms = rapid.SampledFrom([]int{1, 300, l.IdleMs + 1}).Draw(t, "wslow")
+			}
 		}
 		l.Steps = append(l.Steps, s)
 	}
@@ -66,6 +78,7 @@ type c20vObs struct {
 	afterInactive                                                             map[string]int
 	cbPanics                                                                  []interface{}
 	delayedAfterStim, pendingAtInactive, exactDue, lateStim, closedInTimeline bool
+	slowWrite, refusedWrite                                                   bool
 	viol                                                                      *core.Violation
 }
 
@@ -87,6 +100,18 @@ func runC20VLine(l C20VLine) (*c20vObs, *core.Violation) {
 	// the read loop parks inside the last inbound handler (blocked in the transport's Read) until the channel is
 	// closed; it never touches the observations. Inbound messages are fired by the timeline.
 	ch := netty.NewChannel()(1, context.Background(), pl, tr, netty.AsyncExecutor())
+	// nearer the head than the idle handlers: the rest of the outbound path (slow, or refusing the message)
+	var wSlow time.Duration
+	var wRefuse bool
+	pl.AddLast(netty.OutboundHandlerFunc(func(ctx netty.OutboundContext, m netty.Message) {
+		if wSlow > 0 {
+			clock.Advance(wSlow)
+		}
+		if wRefuse {
+			panic(fmt.Errorf("verif: write refused behind the idle handler"))
+		}
+		ctx.HandleWrite(m)
+	}))
 	if hasKind("read") {
 		h := netty.ReadIdleHandler(idle)
 		pl.AddLast(h)
@@ -109,6 +134,7 @@ func runC20VLine(l C20VLine) (*c20vObs, *core.Violation) {
 	closeBegin := time.Duration(-1)
 	lingerMs := 0
 	nEvents := 0
+	excPanicked := false
 	pl.AddLast(netty.ActiveHandlerFunc(func(ctx netty.ActiveContext) {
 		obs.stims = append(obs.stims, c20vEvent{"active", clock.Elapsed()})
 		ctx.HandleActive()
@@ -173,7 +199,8 @@ func runC20VLine(l C20VLine) (*c20vObs, *core.Violation) {
 		}
 	}), netty.ExceptionHandlerFunc(func(ctx netty.ExceptionContext, ex netty.Exception) {
 		obs.exceptions = append(obs.exceptions, ex)
-		if len(obs.exceptions) == 1 && l.ExcPanics {
+		if l.ExcPanics && !excPanicked && ex != nil && containsStr(ex.Error(), "idle event handler panic") {
+			excPanicked = true
 			panic("verif: exception handler panic")
 		}
 	}))
@@ -213,13 +240,22 @@ func runC20VLine(l C20VLine) (*c20vObs, *core.Violation) {
 			obs.stims = append(obs.stims, c20vEvent{"read", clock.Elapsed()})
 			guard(func() { pl.FireChannelRead("inbound") })
 		case "write":
+			// the write passes the idle handler now, whatever happens to it afterwards
 			obs.stims = append(obs.stims, c20vEvent{"write", clock.Elapsed()})
+			wSlow, wRefuse = time.Duration(s.Ms)*time.Millisecond, s.Idx == 1
+			if wSlow > 0 {
+				obs.slowWrite = true
+			}
+			if wRefuse {
+				obs.refusedWrite = true
+			}
 			if closed {
 				obs.lateStim = true
 				guard(func() { pl.FireChannelWrite([]byte("late")) })
 			} else {
-				_ = ch.Write([]byte("out"))
+				guard(func() { _ = ch.Write([]byte("out")) })
 			}
+			wSlow, wRefuse = 0, false
 		case "inactive":
 			if !closed {
 				closed = true
@@ -361,6 +397,14 @@ func runC20V(c C20Case) (out core.Outcome) {
 		}
 		if obs.lateStim {
 			cls.Add("v:stimulus-after-inactive")
+			out.NonTrivial = true
+		}
+		if obs.slowWrite {
+			cls.Add("v:write-slow-behind-handler")
+			out.NonTrivial = true
+		}
+		if obs.refusedWrite {
+			cls.Add("v:write-refused-behind-handler")
 			out.NonTrivial = true
 		}
 		for _, s := range l.Steps {
